@@ -5,6 +5,8 @@ import (
 	"go/token"
 	"go/types"
 	"strconv"
+
+	"golang.org/x/tools/go/ssa"
 )
 
 // fmt: a small formatter over interpreter values. Verbs applied to concrete scalars and to
@@ -44,7 +46,7 @@ func (fr *frame) writeTo(w value, bs []value) value {
 	if wi.t == nil {
 		fr.i.ctx.runtimeError(fr, "runtime error: invalid memory address or nil pointer dereference (Write on nil io.Writer)")
 	}
-	m := fr.i.prog.LookupMethod(wi.t, nil, "Write")
+	m := fr.i.safeLookup(wi.t, "Write")
 	if m == nil {
 		fr.i.ctx.end("UNSUPPORTED", "no Write method on %v", wi.t)
 	}
@@ -68,7 +70,7 @@ func (fr *frame) renderArg(verb byte, flags string, arg value) []value {
 		// error / Stringer values: call Error()/String() when the dynamic type has them
 		if verb == 'v' || verb == 's' {
 			for _, mn := range []string{"Error", "String"} {
-				if m := fr.i.prog.LookupMethod(it.t, nil, mn); m != nil && m.Signature.Params().Len() == 0 && m.Signature.Results().Len() == 1 {
+				if m := fr.i.safeLookup(it.t, mn); m != nil && m.Signature.Params().Len() == 0 && m.Signature.Results().Len() == 1 {
 					if b, ok := m.Signature.Results().At(0).Type().Underlying().(*types.Basic); ok && b.Kind() == types.String {
 						r := call(fr.i, fr, token.NoPos, m, []value{it.v})
 						if isString(r) {
@@ -165,4 +167,13 @@ func (fr *frame) formatPlain(args []value, spaces bool) []value {
 		out = append(out, fr.renderArg('v', "", a)...)
 	}
 	return out
+}
+
+// safeLookup returns the exported method `name` of dynamic type t, or nil if there is none.
+func (i *interpreter) safeLookup(t types.Type, name string) *ssa.Function {
+	sel := i.prog.MethodSets.MethodSet(t).Lookup(nil, name)
+	if sel == nil {
+		return nil
+	}
+	return i.prog.MethodValue(sel)
 }
